@@ -22,6 +22,11 @@ STATE = {"on": False}
 AGGS = ["mean", "min", "max", "sum", "std", "var", "median", "ptp", "prod", "amax", "amin"]
 
 
+def pick_len(rng, maxlen):
+    """1, the longest path, or a length strictly in between (a shorter object then rests at its LAST pose)"""
+    return int(rng.choice([1, maxlen, int(rng.integers(1, maxlen + 1))]))
+
+
 def plan(tier):
     return {"shards": 8 if tier == "quick" else 16, "budget_s": 25 if tier == "quick" else 420,
             "required_counters": ["rotpath:unrotated", "rotpath:static", "rotpath:rotating", "hand:left",
@@ -59,7 +64,7 @@ def gen_case(rng):
     maxlen = int(rng.choice([1, 2, 3, 5]))
     srcs = []
     for _ in range(nsrc):
-        L = int(rng.choice([1, maxlen]))
+        L = pick_len(rng, maxlen)
         if rng.random() < 0.2:
             kids = [objs.rand_source(rng, path_len=L) for _ in range(int(rng.integers(1, 3)))]
             pos, ori = objs.rand_path(rng, L, 0.3)
@@ -71,7 +76,7 @@ def gen_case(rng):
     base_pix = objs.rand_sensor(rng)["pixel"]
     sens = []
     for _ in range(nsens):
-        L = int(rng.choice([1, maxlen]))
+        L = pick_len(rng, maxlen)
         s = objs.rand_sensor(rng, path_len=L, pixel="auto" if hetero else base_pix)
         kind, q = sensor_orient(rng, L)
         s["orientation"] = q
